@@ -82,15 +82,15 @@ const Src *sourceByName(const std::string &n) { for (auto &s : g_sources) if (s.
 // Host state of one operation.
 //---------------------------------------------------------------------------------------------
 struct Host {
-  int heapMode = sim::heap::ZERO; uint64_t heapSeed = 0, padSeed = 0; unsigned padMax = 0, baseShift = 0; bool shuffle = false;
+  int heapMode = sim::heap::ZERO; uint64_t heapSeed = 0, padSeed = 0; unsigned padMax = 0, baseShift = 0; bool shuffle = false, scribble = false;
   int stackMode = sim::STACK_ZERO; size_t stackBytes = 1400000; uint64_t stackSeed = 0; size_t shift = 0;
   int arenaMode = 0; uint64_t arenaSeed = 0;     // C12 library level: backing store of the Processor (0 zero, 1 ones, 2 prng, 3 pointerish, 4 stale)
   unsigned envPad = 0; std::string lang;
   int err = 0;                                   // errno left behind by whatever ran before
   uint64_t clock = 0; int pid = 0;               // what the clock and getpid() say (0: the pristine 1000000000 / 4242)
-  bool pristine() const { return heapMode == sim::heap::ZERO && stackMode == sim::STACK_ZERO && arenaMode == 0 && !padSeed && !baseShift && !shift && !envPad && lang.empty() && !err && !clock && !pid; }
+  bool pristine() const { return heapMode == sim::heap::ZERO && stackMode == sim::STACK_ZERO && arenaMode == 0 && !padSeed && !scribble && !baseShift && !shift && !envPad && lang.empty() && !err && !clock && !pid; }
   std::string str() const {
-    return std::string("heap=") + sim::heap::modeName(heapMode) + (padSeed ? "+pad" : "") + (shuffle ? "+shuffle" : "") + (baseShift ? "+shift" : "") +
+    return std::string("heap=") + sim::heap::modeName(heapMode) + (padSeed ? "+pad" : "") + (shuffle ? "+shuffle" : "") + (scribble ? "+scribble" : "") + (baseShift ? "+shift" : "") +
            " stack=" + std::to_string(stackMode) + (shift ? "+shift" : "") + " arena=" + std::to_string(arenaMode) + (envPad ? " env" : "") + (err ? " errno=" + std::to_string(err) : "") + (clock ? " clock" : "");
   }
 };
@@ -99,7 +99,7 @@ Host hostFrom(const Json &op) {
   h.heapMode = sim::heap::modeFromName(op.getStr("heap", "zero"));
   if (h.heapMode == sim::heap::PASSTHROUGH) h.heapMode = sim::heap::ZERO;
   h.heapSeed = op.getU64("heap_seed"); h.padSeed = op.getU64("pad_seed"); h.padMax = (unsigned)(op.getU64("pad_max") % 64);
-  h.baseShift = (unsigned)(op.getU64("base_shift") % 4096); h.shuffle = op.getBool("shuffle");
+  h.baseShift = (unsigned)(op.getU64("base_shift") % 4096); h.shuffle = op.getBool("shuffle"); h.scribble = op.getBool("scribble");
   // The stack below the code under test is always written by the simulator (never left as the
   // harness happened to leave it): mode 0 means zero, and the filled region always covers the frames
   // the tools use (hexsim keeps its 800 kB Processor on main's stack).
@@ -117,6 +117,7 @@ Json hostToJson(Json op, const Host &h) {
   if (h.padSeed) { op["pad_seed"] = (unsigned long long)h.padSeed; op["pad_max"] = h.padMax; }
   if (h.baseShift) op["base_shift"] = h.baseShift;
   if (h.shuffle) op["shuffle"] = true;
+  if (h.scribble) op["scribble"] = true;
   op["stack"] = h.stackMode; op["stack_bytes"] = (unsigned long long)(h.stackBytes >= 1400000 ? h.stackBytes - 1400000 : h.stackBytes); op["stack_seed"] = (unsigned long long)h.stackSeed;
   if (h.shift) op["shift"] = (unsigned long long)h.shift;
   if (h.arenaMode) { op["arena"] = h.arenaMode; op["arena_seed"] = (unsigned long long)h.arenaSeed; }
@@ -134,6 +135,7 @@ Host randomHost(Rng &r, bool c12) {
   if (r.chance(1, 2)) { h.padSeed = 1 + (r.next() >> 16); h.padMax = 1 + (unsigned)r.below(32); }
   if (r.chance(1, 3)) h.baseShift = (unsigned)r.below(4096);
   h.shuffle = r.chance(1, 3);
+  h.scribble = r.chance(1, 2);
   h.stackMode = 1 + (int)r.below(sim::STACK_NUM_MODES - 1);
   h.stackBytes = (size_t)r.below(1u << 20);
   h.stackSeed = r.next() >> 16;
@@ -152,7 +154,7 @@ void applyEnv(const Host &h) {
 }
 sim::heap::Config heapCfg(const Host &h) {
   sim::heap::Config c;
-  c.mode = h.heapMode; c.fillSeed = h.heapSeed; c.padSeed = h.padSeed; c.padMax = h.padMax; c.baseShift = h.baseShift; c.shuffleRecycle = h.shuffle;
+  c.mode = h.heapMode; c.fillSeed = h.heapSeed; c.padSeed = h.padSeed; c.padMax = h.padMax; c.baseShift = h.baseShift; c.shuffleRecycle = h.shuffle; c.scribbleFree = h.scribble;
   return c;
 }
 
@@ -379,7 +381,8 @@ public:
     std::string text; bool isX = true; std::string origin;
     if (k < 3 || g_sources.empty()) {
       Rng gr = r.fork(11);
-      if (r.chance(2, 3)) { text = gen::makeX(gr); origin = "xgen"; } else { text = gen::makeAsm(gr); isX = false; origin = "asmgen"; }
+      if (r.chance(1, 4)) { if (r.chance(2, 3)) { text = gen::makeSizedAsm(gr); isX = false; origin = "sizedasm"; } else { text = gen::makeSizedX(gr); origin = "sizedx"; } }
+      else if (r.chance(2, 3)) { text = gen::makeX(gr); origin = "xgen"; } else { text = gen::makeAsm(gr); isX = false; origin = "asmgen"; }
     } else {
       const Src *s = &g_sources[r.below(g_sources.size())];
       for (int t = 0; s->text.size() > 20000 && t < 4 && !r.chance(1, 30); t++) s = &g_sources[r.below(g_sources.size())];
@@ -436,7 +439,7 @@ public:
   }
   void simplifyHost(const Json &op, std::vector<Json> &out) {
     // Towards the pristine host state, one dimension at a time.
-    for (const char *k : {"pad_seed", "base_shift", "shuffle", "shift", "env_pad", "lang", "arena", "stack", "errno", "clock", "pid"}) {
+    for (const char *k : {"pad_seed", "base_shift", "shuffle", "scribble", "shift", "env_pad", "lang", "arena", "stack", "errno", "clock", "pid"}) {
       if (!op.has(k)) continue;
       Json c = op; c.erase(k);
       if (std::string(k) == "stack") c["stack"] = 1;
@@ -716,6 +719,9 @@ public:
 
     // (c) -t only adds trace text.
     if (v.trace && steps <= 6000) {      // every traced instruction is a line of output
+      // The trace text itself is output of the run: the same bytes in every host state.  Reference
+      // per entry point (library, hexsim, xrun): the traced run in the pristine host.
+      std::map<int, std::string> pristineTrace;
       for (size_t h = 0; h < hosts.size() && !o.violated; h++) {
         bool asTool = tool[h] && exited;
         bool viaXrun = asTool && tool[h] == 2 && !v.xsource.empty();     // the same entry point as the plain run
@@ -728,6 +734,21 @@ public:
         if (d.empty() && !asTool && r.syscalls != base.syscalls) d = "system-call sequence differs (" + std::to_string(r.syscalls.size()) + " vs " + std::to_string(base.syscalls.size()) + ")";
         if (d.empty() && r.out.size() < base.out.size()) d = "trace run wrote fewer bytes than the plain run";
         if (!d.empty()) o.violate("host_state_dependent", "-t changed the run: " + d + " [host " + hosts[h].str() + ", image " + v.progName + "]", "host_state_dependent:trace");
+        if (o.violated || r.t.kind == sim::Trapped::CRASHED) continue;
+        int level = !asTool ? 0 : viaXrun ? 2 : 1;
+        if (h == 0) { pristineTrace[0] = r.out; continue; }
+        if (!pristineTrace.count(level)) {
+          RunRes p = viaXrun ? runTool(v, Host(), true, 0, true, v.xsource) : runTool(v, Host(), true, 0, false, "");
+          if (hung(p.t)) { o.note = "skipped:watchdog"; o.count("probe.watchdog_hit"); return; }
+          pristineTrace[level] = p.out;
+        }
+        o.count("probe.trace_text_compared_across_hosts");
+        const std::string &want = pristineTrace[level];
+        if (r.out != want) {
+          size_t at = 0; while (at < r.out.size() && at < want.size() && r.out[at] == want[at]) at++;
+          size_t ls = r.out.rfind('\n', at ? at - 1 : 0); ls = ls == std::string::npos ? 0 : ls + 1;
+          o.violate("host_state_dependent", "-t output differs between host states at byte " + std::to_string(at) + " ('" + clip(r.out.substr(ls, 70), 70) + "' vs '" + clip(want.substr(std::min(ls, want.size()), 70), 70) + "') [host " + hosts[h].str() + " vs pristine, image " + v.progName + "]", "host_state_dependent:trace_text");
+        }
       }
       o.stateKeys.push_back("c12 trace img=" + imgClass);
     }
@@ -871,7 +892,7 @@ public:
       o.simInstr++;
       o.nontrivial = true;
       o.count(std::string("fault.heap_") + sim::heap::modeName(h.heapMode));
-      if (h.padSeed) o.count("fault.heap_padding"); if (h.shuffle) o.count("fault.heap_recycle_shuffle"); if (h.baseShift) o.count("fault.heap_base_shift");
+      if (h.padSeed) o.count("fault.heap_padding"); if (h.shuffle) o.count("fault.heap_recycle_shuffle"); if (h.scribble) o.count("fault.heap_scribble_on_free"); if (h.baseShift) o.count("fault.heap_base_shift");
       o.count("fault.stack_mode_" + std::to_string(h.stackMode)); if (h.shift) o.count("fault.stack_shift");
       if (h.envPad || !h.lang.empty()) o.count("fault.environment");
       if (h.err) o.count("fault.errno_left_behind");
